@@ -20,6 +20,8 @@ import Dashu.Proofs.Ratio.PowSmall
   (7) (round 7) BELOW memory the guard is silent: if the exact power has fewer than `2^62` bits per component, `pow` returns —
       no panic alternative; the guarded history (`runG`, op `qp.prog`, the real code) IS the unguarded one (`run`, the older op
       `prog`); Relaxed = RBig for `pow` without the "whenever both return" hypothesis.
+  (8) (round 8) Relaxed = RBig over GUARDED histories (`runG`, the real code): whenever neither guarded run stops with the allocation
+      panic (every word size), and below memory (64-bit words) without that hypothesis — values, stops, canonicalised stored pairs.
   Kept apart from Props/C04 because it imports C01's proof files.
 -/
 namespace Dashu.Props.C04Pow
@@ -356,5 +358,92 @@ example : runG 64 [.pow 0 3, .un .inv 1, .pow 2 2] [⟨.R, ⟨-12, 5⟩⟩] = ru
     subst ha
     exact ⟨small_of_lt _ _ 30 (by decide) (by decide), small_of_lt _ _ 30 (by decide) (by decide)⟩
   | k + 3 => simp at hk
+
+-- ------------------------------------------------------------------ (8) Relaxed = RBig over guarded histories (round 8)
+
+/-- a guarded run that does not stop with the allocation panic of `pow` IS the plain run (every word size) -/
+theorem runG_eq_run_of_no_alloc_panic (W : Nat) (ops : List Op) (env : List Reg)
+    (h : ∀ k, (runG W ops env).2 = .panic k → k ≠ .allocTooMuch) : runG W ops env = run ops env := by
+  rcases runG_cases W ops env with e | ⟨_, _, _, _, _, _, _, hstop, _, _⟩
+  · exact e
+  · exact absurd rfl (h _ hstop)
+
+/-- **Relaxed = RBig over GUARDED histories** (`runG`, the op `qp.prog`, what the real code does; every word size): the same
+    program on two register files denoting the same numbers, neither guarded run malformed, neither stopping with the allocation
+    panic of `pow`: both stop at the same step in the same way (done, or `DivideByZero`) and every register ever produced denotes
+    the same number in both -/
+theorem history_relaxed_equals_rbig_guarded (W : Nat) (ops : List Op) (e1 e2 : List Reg) (h1 : ∀ r ∈ e1, r.Inv)
+    (h2 : ∀ r ∈ e2, r.Inv) (hv : e1.map Reg.val = e2.map Reg.val)
+    (nb1 : (runG W ops e1).2 ≠ .bad) (nb2 : (runG W ops e2).2 ≠ .bad)
+    (na1 : ∀ k, (runG W ops e1).2 = .panic k → k ≠ .allocTooMuch)
+    (na2 : ∀ k, (runG W ops e2).2 = .panic k → k ≠ .allocTooMuch) :
+    (runG W ops e1).1.map Reg.val = (runG W ops e2).1.map Reg.val ∧
+    (((runG W ops e1).2 = .done ∧ (runG W ops e2).2 = .done) ∨
+     ((runG W ops e1).2 = .panic .divideByZero ∧ (runG W ops e2).2 = .panic .divideByZero)) := by
+  rw [runG_eq_run_of_no_alloc_panic W ops e1 na1] at nb1 ⊢
+  rw [runG_eq_run_of_no_alloc_panic W ops e2 na2] at nb2 ⊢
+  exact Dashu.Props.C04.history_relaxed_equals_rbig ops e1 e2 h1 h2 hv nb1 nb2
+
+/-- … and as stored pairs: `canonicalize` of register `i` of the first guarded run is the pair stored in register `i` of the
+    second wherever that one is an `RBig` -/
+theorem history_canonicalize_equals_rbig_guarded (W : Nat) (ops : List Op) (e1 e2 : List Reg) (h1 : ∀ r ∈ e1, r.Inv)
+    (h2 : ∀ r ∈ e2, r.Inv) (hv : e1.map Reg.val = e2.map Reg.val)
+    (nb1 : (runG W ops e1).2 ≠ .bad) (nb2 : (runG W ops e2).2 ≠ .bad)
+    (na1 : ∀ k, (runG W ops e1).2 = .panic k → k ≠ .allocTooMuch)
+    (na2 : ∀ k, (runG W ops e2).2 = .panic k → k ≠ .allocTooMuch)
+    (i : Nat) (r1 r2 : Reg) (g1 : (runG W ops e1).1[i]? = some r1) (g2 : (runG W ops e2).1[i]? = some r2)
+    (hk : r2.kind = .R) : reduce r1.q = .ok r2.q := by
+  rw [runG_eq_run_of_no_alloc_panic W ops e1 na1] at nb1 g1
+  rw [runG_eq_run_of_no_alloc_panic W ops e2 na2] at nb2 g2
+  exact Dashu.Props.C04.history_canonicalize_equals_rbig ops e1 e2 h1 h2 hv nb1 nb2 i r1 r2 g1 g2 hk
+
+/-- **Relaxed = RBig over guarded histories BELOW memory** (64-bit words): no hypothesis on how the guarded runs stop other than
+    well-formedness — if every `pow` step of both plain runs has an exact result of fewer than `2^62` bits per component, the
+    guarded runs never raise the allocation panic and agree in stop and in every value -/
+theorem history_relaxed_equals_rbig_guarded_below_memory (ops : List Op) (e1 e2 : List Reg) (h1 : ∀ r ∈ e1, r.Inv)
+    (h2 : ∀ r ∈ e2, r.Inv) (hv : e1.map Reg.val = e2.map Reg.val)
+    (nb1 : (runG 64 ops e1).2 ≠ .bad) (nb2 : (runG 64 ops e2).2 ≠ .bad)
+    (hb1 : ∀ k i n a, ops[k]? = some (.pow i n) → (run (ops.take k) e1).1[i]? = some a →
+      a.q.num.natAbs ^ n < 2 ^ (2 ^ 62) ∧ a.q.den ^ n < 2 ^ (2 ^ 62))
+    (hb2 : ∀ k i n a, ops[k]? = some (.pow i n) → (run (ops.take k) e2).1[i]? = some a →
+      a.q.num.natAbs ^ n < 2 ^ (2 ^ 62) ∧ a.q.den ^ n < 2 ^ (2 ^ 62)) :
+    (runG 64 ops e1).1.map Reg.val = (runG 64 ops e2).1.map Reg.val ∧
+    (((runG 64 ops e1).2 = .done ∧ (runG 64 ops e2).2 = .done) ∨
+     ((runG 64 ops e1).2 = .panic .divideByZero ∧ (runG 64 ops e2).2 = .panic .divideByZero)) := by
+  rw [runG_eq_run_below_memory ops e1 hb1] at nb1 ⊢
+  rw [runG_eq_run_below_memory ops e2 hb2] at nb2 ⊢
+  exact Dashu.Props.C04.history_relaxed_equals_rbig ops e1 e2 h1 h2 hv nb1 nb2
+
+-- non-vacuity: Relaxed 9/3 and RBig 3/1 through [pow 0 3, inv 1, sub 1 2 …]: every hypothesis of the guarded theorem holds
+private def opsE : List Op := [.pow 0 3, .un .inv 1, .pow 2 2]
+private def stopCode : Stop → Nat
+  | .done => 0 | .panic .divideByZero => 1 | .panic .allocTooMuch => 2 | .panic _ => 3 | .bad => 4
+
+example : (∀ r ∈ [(⟨.X, ⟨9, 3⟩⟩ : Reg)], r.Inv) ∧ (∀ r ∈ [(⟨.R, ⟨3, 1⟩⟩ : Reg)], r.Inv) ∧
+    [(⟨.X, ⟨9, 3⟩⟩ : Reg)].map Reg.val = [(⟨.R, ⟨3, 1⟩⟩ : Reg)].map Reg.val ∧
+    stopCode (runG 64 opsE [⟨.X, ⟨9, 3⟩⟩]).2 = 0 ∧ stopCode (runG 64 opsE [⟨.R, ⟨3, 1⟩⟩]).2 = 0 := by
+  refine ⟨?_, ?_, ?_, by decide +kernel, by decide +kernel⟩
+  · intro r hr; simp at hr; subst hr; show RelaxedInv _; decide
+  · intro r hr; simp at hr; subst hr; show Reduced _; decide
+  · simp [Reg.val, Q.val]; norm_num
+
+private theorem stopCode_zero {s : Stop} (h : stopCode s = 0) :
+    s ≠ .bad ∧ ∀ k, s = .panic k → k ≠ .allocTooMuch := by
+  cases s with
+  | done => exact ⟨(fun e => by cases e), (fun k e => by cases e)⟩
+  | panic k => cases k <;> simp [stopCode] at h
+  | bad => simp [stopCode] at h
+
+/-- … so the theorem applies: the guarded Relaxed run on 9/3 and the guarded RBig run on 3/1 agree in every value and both finish -/
+example : (runG 64 opsE [⟨.X, ⟨9, 3⟩⟩]).1.map Reg.val = (runG 64 opsE [⟨.R, ⟨3, 1⟩⟩]).1.map Reg.val ∧
+    (((runG 64 opsE [⟨.X, ⟨9, 3⟩⟩]).2 = .done ∧ (runG 64 opsE [⟨.R, ⟨3, 1⟩⟩]).2 = .done) ∨
+     ((runG 64 opsE [⟨.X, ⟨9, 3⟩⟩]).2 = .panic .divideByZero ∧ (runG 64 opsE [⟨.R, ⟨3, 1⟩⟩]).2 = .panic .divideByZero)) := by
+  have c1 : stopCode (runG 64 opsE [⟨.X, ⟨9, 3⟩⟩]).2 = 0 := by decide +kernel
+  have c2 : stopCode (runG 64 opsE [⟨.R, ⟨3, 1⟩⟩]).2 = 0 := by decide +kernel
+  refine history_relaxed_equals_rbig_guarded 64 opsE _ _ ?_ ?_ ?_ (stopCode_zero c1).1 (stopCode_zero c2).1
+    (stopCode_zero c1).2 (stopCode_zero c2).2
+  · intro r hr; simp at hr; subst hr; show RelaxedInv _; decide
+  · intro r hr; simp at hr; subst hr; show Reduced _; decide
+  · simp [Reg.val, Q.val]; norm_num
 
 end Dashu.Props.C04Pow
